@@ -620,7 +620,11 @@ def runRule (env : Env) (t : Tables) (rec : Rec) (ctx : Ctx) (schema doc : Val) 
 def validateDefinitions (env : Env) (t : Tables) (rec : Rec) (ctx : Ctx) (schema doc : Val) (upd : Bool)
     (f : Key) (definitions : Val) (v : Val) (s : QState) : M QState :=
   match env.resolveRulesSet definitions with
-  | none => raisePy "TypeError" "__validate_definitions"
+  | none =>
+    -- not a rule set: below a `schema` rule this is a sequence-item rules set met by a
+    -- mapping (`_SchemaRuleTypeError`, after the repair of F8b); elsewhere `x in None`
+    if ctx.isChild && kS "schema" == (ctx.schemaPath.getLast?.getD (.i 0)) then .error .schemaRuleType
+    else raisePy "TypeError" "__validate_definitions"
   | some defs =>
     match ruleNames defs with
     | .error e => .error e
